@@ -753,7 +753,7 @@ def units(tier):
     M = "vf.props.c06"
     us = []
     shapes = RC.shapes(tier) + (QUICK_EXTRA if tier == "quick" else [])
-    for sec, ns in (("PackInfo", (6,) if tier == "quick" else (6, 8, 10)), ("UnpackInfo", (5,) if tier == "quick" else (5, 7)),
+    for sec, ns in (("PackInfo", (6,) if tier == "quick" else (6, 8)), ("UnpackInfo", (5,) if tier == "quick" else (5, 7)),
                     ("SubstreamsInfo", (4, 6) if tier == "quick" else (4, 7, 9))):
         for n in ns:
             us.append(Unit("B.section_differential[%s,%d bytes]" % (sec, n), M, "section_differential", dict(section=sec, nbytes=n), 3000))
